@@ -743,3 +743,196 @@ Proof.
         rewrite KG in Hk. destruct Hk.
     + intros [[H _]|[[_ H]|(_ & _ & -> & _)]]; [discriminate|discriminate|reflexivity].
 Qed.
+
+(* ---------------------------------------------------------------- one-to-many *)
+Definition dkeys (d : list (Z * Tree)) : list Z := map fst d.
+
+Lemma dset_keys d k v : dkeys (dset d k v) = if zmem k (dkeys d) then dkeys d else dkeys d ++ [k].
+Proof.
+  unfold dkeys. induction d as [|[k0 v0] r IH]; simpl; [reflexivity|].
+  destruct (Z.eqb k k0) eqn:E; simpl.
+  - apply Z.eqb_eq in E. subst. reflexivity.
+  - rewrite IH. destruct (zmem k (map fst r)); reflexivity.
+Qed.
+
+Lemma dset_NoDup d k v : NoDup (dkeys d) -> NoDup (dkeys (dset d k v)).
+Proof.
+  intros H. rewrite dset_keys. destruct (zmem k (dkeys d)) eqn:E; [exact H|].
+  apply NoDup_app_intro; [exact H|constructor; [intros []|constructor]|].
+  intros x Hx [Hx'|[]]. subst. apply zmem_In in Hx. congruence.
+Qed.
+
+Lemma dset_keys_In d k v g : In g (dkeys (dset d k v)) <-> In g (dkeys d) \/ g = k.
+Proof.
+  rewrite dset_keys. destruct (zmem k (dkeys d)) eqn:E.
+  - split; [intros H; left; exact H|]. intros [H| ->]; [exact H|apply zmem_In; exact E].
+  - rewrite in_app_iff. simpl. split; [intros [H|[H|[]]]; [left; exact H|right; symmetry; exact H]|].
+    intros [H| ->]; [left; exact H|right; left; reflexivity].
+Qed.
+
+Definition md_inner (d : list (Z * Tree)) (p : list (Tree * Z)) : list (Z * Tree) :=
+  fold_left (fun d pg => dset d (snd pg) (fst pg)) p d.
+
+Lemma md_inner_spec p : forall d,
+  NoDup (dkeys d) ->
+  NoDup (dkeys (md_inner d p)) /\
+  (forall g, In g (dkeys (md_inner d p)) <-> In g (dkeys d) \/ exists pw, In (pw, g) p).
+Proof.
+  unfold md_inner. induction p as [|[pw0 g0] p IH]; intros d Hn; simpl.
+  - split; [exact Hn|]. intros g. split; [intros H; left; exact H|intros [H|[pw []]]; exact H].
+  - destruct (IH (dset d g0 pw0) (dset_NoDup d g0 pw0 Hn)) as [A B]. split; [exact A|].
+    intros g. rewrite B, dset_keys_In. split.
+    + intros [[H| ->]|[pw H]]; [left; exact H|right; exists pw0; left; reflexivity|right; exists pw; right; exact H].
+    + intros [H|[pw [H|H]]]; [left; left; exact H|inversion H; subst; left; right; reflexivity|right; exists pw; exact H].
+Qed.
+
+Lemma new_md_spec paths : forall d,
+  NoDup (dkeys d) ->
+  let d' := fold_left (fun d p => fold_left (fun d pg => dset d (snd pg) (fst pg)) p d) paths d in
+  NoDup (dkeys d') /\
+  (forall g, In g (dkeys d') <-> In g (dkeys d) \/ exists p pw, In p paths /\ In (pw, g) p).
+Proof.
+  induction paths as [|p paths IH]; intros d Hn; simpl.
+  - split; [exact Hn|]. intros g. split; [intros H; left; exact H|intros [H|[p [pw [[] _]]]]; exact H].
+  - destruct (md_inner_spec p d Hn) as [A B]. unfold md_inner in A, B.
+    destruct (IH _ A) as [C D]. cbv zeta in *. split; [exact C|].
+    intros g. rewrite D, B. split.
+    + intros [[H|[pw H]]|[p' [pw [H1 H2]]]]; [left; exact H|right; exists p, pw; split; [left; reflexivity|exact H]|
+                                               right; exists p', pw; split; [right; exact H1|exact H2]].
+    + intros [H|[p' [pw [[ <- |H1] H2]]]]; [left; left; exact H|left; right; exists pw; exact H2|right; exists p', pw; split; assumption].
+Qed.
+
+(* the accumulation loop keeps the shape of new_data *)
+Definition acc_step (order : list Z) (w : Z) (v : list Z) (rows : matrix) (pg : Tree * Z) : matrix :=
+  let c := pos0 (snd pg) order in upd rows c (vadd (nth c rows []) (map (Z.mul w) v)).
+Definition acc_one (order : list Z) (w : Z) (v : list Z) (p : list (Tree * Z)) (rows : matrix) : matrix :=
+  fold_left (acc_step order w v) p rows.
+Definition o2m_weight (k : Z) (divide : bool) (p : list (Tree * Z)) : Z :=
+  if divide then (k / Z.of_nat (length p))%Z else 1%Z.
+
+Lemma o2m_accumulate_eq rows0 order vecs paths k divide :
+  o2m_accumulate rows0 order vecs paths k divide =
+  fold_left (fun rows vp => acc_one order (o2m_weight k divide (snd vp)) (fst vp) (snd vp) rows)
+            (combine vecs paths) rows0.
+Proof. reflexivity. Qed.
+
+Definition shape (n c : nat) (rows : matrix) : Prop := length rows = n /\ rect c rows.
+
+Lemma Forall_upd {A} (P : A -> Prop) (l : list A) i x :
+  Forall P l -> (i < length l -> P x) -> Forall P (upd l i x).
+Proof.
+  intros H Hx. unfold upd. apply Forall_app. split.
+  - rewrite Forall_forall in *. intros y Hy. apply H. eapply In_firstn. exact Hy.
+  - destruct (skipn i l) as [|y r] eqn:E; [constructor|].
+    assert (i < length l) as Hi.
+    { destruct (Nat.lt_ge_cases i (length l)) as [Hlt|Hge]; [exact Hlt|]. rewrite skipn_all2 in E by exact Hge. discriminate. }
+    constructor; [apply Hx; exact Hi|].
+    rewrite Forall_forall in *. intros z Hz. apply H. rewrite <- (firstn_skipn i l). apply in_or_app. right.
+    rewrite E. right. exact Hz.
+Qed.
+
+Lemma vadd_length a b : length (vadd a b) = Nat.min (length a) (length b).
+Proof. unfold vadd. rewrite map_length. apply combine_length. Qed.
+
+Lemma acc_step_shape n c order w v rows pg :
+  shape n c rows -> length v = c -> shape n c (acc_step order w v rows pg).
+Proof.
+  intros [S1 S2] Hv. unfold acc_step. cbv zeta. split; [rewrite upd_length; exact S1|].
+  apply Forall_upd; [exact S2|]. intros Hlt.
+  rewrite vadd_length, map_length, Hv. rewrite (rect_nth_length c rows _ S2 Hlt). apply Nat.min_id.
+Qed.
+
+Lemma acc_one_shape n c order w v p : forall rows,
+  shape n c rows -> length v = c -> shape n c (acc_one order w v p rows).
+Proof.
+  unfold acc_one. induction p as [|pg p IH]; intros rows S Hv; simpl; [exact S|].
+  apply IH; [apply acc_step_shape; assumption|exact Hv].
+Qed.
+
+Lemma accumulate_shape n c order k divide : forall vps rows,
+  shape n c rows -> Forall (fun vp => length (fst vp) = c) vps ->
+  shape n c (fold_left (fun rows (vp : list Z * list (Tree * Z)) =>
+                          acc_one order (o2m_weight k divide (snd vp)) (fst vp) (snd vp) rows) vps rows).
+Proof.
+  induction vps as [|vp vps IH]; intros rows S Hf; simpl; [exact S|].
+  pose proof (Forall_inv Hf) as Hv. pose proof (Forall_inv_tail Hf) as Hf'. cbv beta in Hv.
+  apply IH; [apply acc_one_shape; [exact S|exact Hv]|exact Hf'].
+Qed.
+
+Lemma zero_shape n c : shape n c (repeat (zero_row c) n).
+Proof.
+  split; [apply repeat_length|]. apply Forall_forall. intros r Hr. apply repeat_spec in Hr. subst.
+  unfold zero_row. apply repeat_length.
+Qed.
+
+Lemma o2m_rows_inv o paths raises strict divide incl key c :
+  o2m_rows o paths raises strict divide incl key = ROk c ->
+  omd o <> None /\ (strict && existsb (fun b => b) raises) = false /\
+  let new_md := new_md_of paths in
+  let order := isort (map fst new_md) in
+  let k := if divide then lcm_counts paths else 1%Z in
+  c = mkC (mkT order (sids o)
+               (o2m_accumulate (repeat (zero_row (nsamp o)) (length order)) order (mat o) paths k divide)
+               (if incl then ctor_md (Some (map (fun g => path_md key (dget new_md g)) order)) else None)
+               (ctor_md (smd o)) (ttype o))
+          (repeat k (length order)).
+Proof.
+  unfold o2m_rows. destruct (omd o); [|discriminate].
+  destruct (strict && existsb (fun b => b) raises); [discriminate|].
+  intros H. inversion H. repeat split. discriminate.
+Qed.
+
+Lemma new_md_keys_NoDup paths : NoDup (map fst (new_md_of paths)).
+Proof. destruct (new_md_spec paths [] (NoDup_nil _)) as [A _]. exact A. Qed.
+
+Lemma o2m_rows_wf o paths raises strict divide incl key c :
+  wf o -> o2m_rows o paths raises strict divide incl key = ROk c -> wf (ctab c).
+Proof.
+  intros W H. destruct (o2m_rows_inv _ _ _ _ _ _ _ _ H) as (_ & _ & ->). cbv zeta. cbn [ctab].
+  pose proof W as (W1 & W2 & W3 & W4 & W5 & W6).
+  set (order := isort (map fst (new_md_of paths))).
+  set (k := if divide then lcm_counts paths else 1%Z).
+  assert (S : shape (length order) (nsamp o)
+                    (o2m_accumulate (repeat (zero_row (nsamp o)) (length order)) order (mat o) paths k divide)).
+  { rewrite o2m_accumulate_eq. apply accumulate_shape; [apply zero_shape|].
+    apply Forall_forall. intros [v p] Hvp. apply in_combine_l in Hvp. simpl.
+    unfold rect in W2. rewrite Forall_forall in W2. apply W2. exact Hvp. }
+  destruct S as [S1 S2].
+  unfold wf, nobs, nsamp. cbn [oids sids mat omd smd]. repeat split.
+  - exact S1.
+  - exact S2.
+  - apply isort_NoDup. apply new_md_keys_NoDup.
+  - exact W4.
+  - destruct incl; [|exact Logic.I]. apply md_ok_ctor. cbn [md_ok]. rewrite map_length. reflexivity.
+  - apply md_ok_ctor. exact W6.
+Qed.
+
+(* ---------------------------------------------------------------- coherence is preserved (for C05) *)
+Lemma wf_remove_empty_whole t : wf t -> wf (remove_empty_whole t).
+Proof. intros W. unfold remove_empty_whole, remove_empty_axis. apply wf_filter_mask. apply wf_filter_mask. exact W. Qed.
+
+Theorem partition_wf t a lab ignore_none remove_empty parts :
+  wf t -> partition_t t a lab ignore_none remove_empty = ROk parts -> Forall (fun p => wf (snd p)) parts.
+Proof.
+  intros W H.
+  assert (K : forall parts0, partition_t t a lab ignore_none false = ROk parts0 -> Forall (fun p => wf (snd p)) parts0).
+  { intros parts0 H0. destruct (partition_exact t a lab ignore_none parts0 W H0) as (_ & _ & _ & P). cbv zeta in P.
+    apply Forall_forall. intros [l p] Hin. simpl. destruct (P l p Hin) as (_ & _ & _ & _ & _ & _ & _ & Wp). exact Wp. }
+  destruct remove_empty; [|apply K; exact H].
+  rewrite partition_remove_empty in H. destruct (partition_t t a lab ignore_none false) as [parts0|e]; [|discriminate].
+  inversion H; subst parts. specialize (K parts0 eq_refl). rewrite Forall_forall in *.
+  intros lp Hin. apply in_map_iff in Hin. destruct Hin as [lp0 [E Hin]]. subst lp.
+  cbn [snd]. apply wf_remove_empty_whole. apply (K lp0 Hin).
+Qed.
+
+Theorem collapse_wf t a m norm incl mode c :
+  wf t -> collapse_t t a m norm incl mode = ROk c -> wf (ctab c).
+Proof.
+  intros W H. destruct m as [lab min_group|paths raises strict key].
+  - destruct (collapse_ids t a lab min_group norm incl mode c W H) as (_ & _ & _ & _ & _ & Wc & _). exact Wc.
+  - unfold collapse_t in H. destruct (negb (Z.eqb mode 0 || Z.eqb mode 1)); [discriminate|].
+    destruct norm; [discriminate|].
+    destruct (o2m_rows (orient a t) paths raises strict (Z.eqb mode 1) incl key) as [c'|e] eqn:E; [|discriminate].
+    inversion H; subst c. cbn [ctab]. apply wf_orient.
+    apply (o2m_rows_wf _ _ _ _ _ _ _ _ (wf_orient a t W) E).
+Qed.
